@@ -1,4 +1,5 @@
 import WtfModel.Proofs.C13Main
+import WtfModel.Proofs.C13Context
 import WtfModel.Proofs.ScoreField
 
 /-!
@@ -181,5 +182,116 @@ example : ge ((308 : ℚ)/141) (154/141) :=
     example_with example_without (d := 1) (by decide +kernel) (by decide +kernel)
 
 end example_engine
+
+/-! ## Analyzer half
+
+  `Context.analyze ri listing pkg mkText` is the model of `AnalyzeDirectory` on a readable directory
+  whose entries are `listing` (validated against the real analyzer on generated directories by the
+  `context` correspondence domain); it evaluates the rule table `Gen.Context.rules` regenerated from the
+  `check*` functions on every run, so the statements below are re-checked against the current source.
+-/
+section analyzer
+open Wtf.Context
+
+/-- table fact (re-checked by `decide` on every regeneration): no marker rule appends the fallback type -/
+theorem generic_fresh : GenericFresh Gen.Context.rules Gen.Context.genericType := by decide
+
+/-- **Each project type is reported at most once**, for every listing (any combination and
+    repetition of names) and any package.json / Makefile contents. -/
+theorem types_nodup (ri : RuneInfo) (listing : List Bytes) (pkg : Option (List Bytes)) (mkText : Bytes → Option Bytes) :
+    (analyze ri listing pkg mkText).types.Nodup :=
+  analyzeWith_types_nodup _ _ ri listing pkg mkText
+
+/-- **'generic' exactly when nothing is recognised**: the reported types are `[generic]` iff no rule of
+    the regenerated table fires on any listed name … -/
+theorem generic_iff (ri : RuneInfo) (listing : List Bytes) (pkg : Option (List Bytes)) (mkText : Bytes → Option Bytes) :
+    (analyze ri listing pkg mkText).types = [Gen.Context.genericType] ↔
+      ∀ name ∈ listing, Quiet Gen.Context.rules name :=
+  analyzeWith_generic_iff _ _ ri listing pkg mkText generic_fresh
+
+/-- … and 'generic' never appears together with another type; the list is never empty. -/
+theorem generic_alone (ri : RuneInfo) (listing : List Bytes) (pkg : Option (List Bytes)) (mkText : Bytes → Option Bytes) :
+    (Gen.Context.genericType ∈ (analyze ri listing pkg mkText).types →
+      (analyze ri listing pkg mkText).types = [Gen.Context.genericType]) ∧
+    (analyze ri listing pkg mkText).types ≠ [] := by
+  refine ⟨analyzeWith_generic_alone _ _ ri listing pkg mkText generic_fresh, ?_⟩
+  unfold analyze
+  rw [analyzeWith_types]
+  split
+  · simp
+  · rename_i h; simpa [List.isEmpty_iff] using h
+
+/-- table fact: every entry of `projectBoosts` and the two literals for scripts / make targets are ≥ 1
+    (a finite rational is finite: "finite" needs no separate clause) -/
+theorem table_boosts_ge_one :
+    (∀ e ∈ Gen.Context.projectBoosts, ∀ kv ∈ e.2, Q.geOne kv.2 = true) ∧
+    Q.geOne Gen.Context.scriptBoost = true ∧ Q.geOne Gen.Context.targetBoost = true := by decide
+
+/-- **Only boosts of at least 1**: every value `GetContextBoosts` can return, for every context (any
+    types, script names, make targets), is an exact rational `q` with `1 ≤ q`. -/
+theorem boosts_ok (ctx : Ctx) : ∀ p ∈ contextBoosts ctx, (p.2.den : Int) ≤ p.2.num ∧ 0 < p.2.den := by
+  have h := contextBoostsWith_all (fun q => Q.geOne q = true) Gen.Context.projectBoosts Gen.Context.scriptBoost
+    Gen.Context.targetBoost table_boosts_ge_one.1 table_boosts_ge_one.2.1 table_boosts_ge_one.2.2 ctx
+  intro p hp
+  have := h p hp
+  simpa [Q.geOne] using this
+
+/-- the boost map handed to the engine, in the engine's score type -/
+def engineBoosts {S : Type} [ScoreOps S] (ctx : Ctx) : List (Bytes × S) := (contextBoosts ctx).map (fun p => (p.1, ofQ p.2))
+
+/-- the two halves meet: the boosts of any detected context satisfy the hypothesis of `monotone` -/
+theorem boosts_ok_scores {S : Type} [ScoreOps S] [ScoreLaws S] (ctx : Ctx) : ∀ p ∈ (engineBoosts ctx : List (Bytes × S)), ge p.2 one := by
+  intro p hp
+  unfold engineBoosts at hp
+  obtain ⟨p0, hp0, rfl⟩ := List.mem_map.mp hp
+  have := boosts_ok ctx p0 hp0
+  exact ofQ_ge_one p0.2 this.1 this.2
+
+/-- hence: the context detected in *any* directory never lowers the score of any returned command -/
+theorem detected_context_never_lowers {S : Type} [ScoreOps S] [ScoreLaws S] (T : Tuning S) (db : Db) (q : Bytes) (o : Opts S)
+    (hP : ParamsSane T.params) (hib : ∀ nq d, Nonneg ((T.nlp nq).intentBoost d)) (hcb : ∀ nq d, Nonneg ((T.nlp nq).cascade d))
+    (ri : RuneInfo) (listing : List Bytes) (pkg : Option (List Bytes)) (mkText : Bytes → Option Bytes)
+    {rB r0 : List (Nat × S)}
+    (h1 : search T db q (withBoosts o (engineBoosts (analyze ri listing pkg mkText))) = .ok rB)
+    (h2 : search T db q (withBoosts o []) = .ok r0)
+    {d : Nat} {sB s0 : S} (hdB : scoreOf rB d = some sB) (hd0 : scoreOf r0 d = some s0) : ge sB s0 :=
+  monotone T db q o hP hib hcb _ (boosts_ok_scores _) h1 h2 hdB hd0
+
+/-- **Detection is a function of the listing**: `analyze` is a (total, terminating) Lean function of the
+    names and the two files' contents, and what the code computes — `analyze` of the names in
+    `os.ReadDir`'s order, sorted bytewise — depends only on the *set* (multiset) of entries. -/
+theorem function_of_entries (ri : RuneInfo) {l1 l2 : List Bytes} (hp : l1.Perm l2) (pkg : Option (List Bytes))
+    (mkText : Bytes → Option Bytes) : analyzeDir ri l1 pkg mkText = analyzeDir ri l2 pkg mkText := by
+  unfold analyzeDir; rw [sortNames_perm_eq hp]
+
+/-- The reported types as a *set* do not depend on the order in which the names are processed, nor on
+    the contents of package.json / Makefile … -/
+theorem listing_order (ri ri' : RuneInfo) {l1 l2 : List Bytes} (hp : l1.Perm l2) (pkg pkg' : Option (List Bytes))
+    (mkText mkText' : Bytes → Option Bytes) (t : String) :
+    t ∈ (analyze ri l1 pkg mkText).types ↔ t ∈ (analyze ri' l2 pkg' mkText').types := by
+  unfold analyze
+  rw [analyzeWith_types_indep _ _ ri l1 pkg mkText pkg' mkText' ri']
+  exact analyzeWith_types_perm _ _ ri' hp pkg' mkText' t
+
+/-- … but their *order*, and with it which value wins for a word two project types boost, does depend
+    on it (so the canonical `os.ReadDir` order is part of the function): Dockerfile before go.mod gives
+    `build ↦ 1.5` (go overrides docker), the other order gives `build ↦ 1.3`. -/
+theorem order_matters :
+    (analyze {} [Bytes.ofString "Dockerfile", Bytes.ofString "go.mod"] none (fun _ => none)).types = ["docker", "go"] ∧
+    (analyze {} [Bytes.ofString "go.mod", Bytes.ofString "Dockerfile"] none (fun _ => none)).types = ["go", "docker"] ∧
+    (Bytes.ofString "build", (⟨3, 2⟩ : Q)) ∈ contextBoosts (analyze {} [Bytes.ofString "Dockerfile", Bytes.ofString "go.mod"] none (fun _ => none)) ∧
+    (Bytes.ofString "build", (⟨13, 10⟩ : Q)) ∈ contextBoosts (analyze {} [Bytes.ofString "go.mod", Bytes.ofString "Dockerfile"] none (fun _ => none)) := by
+  decide +kernel
+
+/-! non-vacuity -/
+example : (analyze {} [Bytes.ofString "Dockerfile", Bytes.ofString "README.md", Bytes.ofString "docker-compose.yml"] none (fun _ => none)).types
+    = ["docker"] := by decide +kernel
+example : (analyze {} [Bytes.ofString "README.md", Bytes.ofString "Dockerfile.bak"] none (fun _ => none)).types = ["generic"] := by decide +kernel
+example : Quiet Gen.Context.rules (Bytes.ofString "Dockerfile.bak") := by decide +kernel
+example : ¬ Quiet Gen.Context.rules (Bytes.ofString "deploy-k8s.yaml") := by decide +kernel
+example : makeTargetsOf {} (Bytes.ofString "all: build\nA=b:c\n.PHONY: all\n# c: d\n\tgo build: x\nbuild :\n") =
+    [Bytes.ofString "all", Bytes.ofString "go build", Bytes.ofString "build"] := by decide +kernel
+
+end analyzer
 
 end Wtf.C13
